@@ -1,6 +1,7 @@
 package main
 
 import (
+	"strconv"
 	"fmt"
 	"go/constant"
 	"go/token"
@@ -695,7 +696,7 @@ func describeShallow(v ssa.Value, d func(ssa.Value) string) string {
 			describeDepthGuard = describeDepthGuard[:len(describeDepthGuard)-1]
 			return t
 		}
-		for i, p := range x.Parent().Params {
+		for i, p := range refParams(x.Parent()) {
 			if p == x {
 				return fmt.Sprintf("$%d", i)
 			}
@@ -726,10 +727,16 @@ func describeShallow(v ssa.Value, d func(ssa.Value) string) string {
 		if t, ok := boundFieldTerm(x.X, x.Field); ok {
 			return t
 		}
+		if isGroupField(x.X.Type(), x.Field) {
+			return d(x.X) // a field that only groups reference fields is transparent
+		}
 		return d(x.X) + "." + fieldName(x.X.Type(), x.Field)
 	case *ssa.Field:
 		if t, ok := boundFieldTerm(x.X, x.Field); ok {
 			return t
+		}
+		if isGroupField(x.X.Type(), x.Field) {
+			return d(x.X) // a field that only groups reference fields is transparent
 		}
 		return d(x.X) + "." + fieldName(x.X.Type(), x.Field)
 	case *ssa.UnOp:
@@ -748,7 +755,53 @@ func describeShallow(v ssa.Value, d func(ssa.Value) string) string {
 		if ys == "0" && (x.Op == token.ADD || x.Op == token.SUB || x.Op == token.OR || x.Op == token.XOR) {
 			return d(x.X)
 		}
-		return "(" + d(x.X) + " " + x.Op.String() + " " + ys + ")"
+		xs := d(x.X)
+		// string(b) == "lit" is bytes.Equal(b, []byte("lit")): one spelling
+		if x.Op == token.EQL || x.Op == token.NEQ {
+			bs := func(v ssa.Value) (ssa.Value, bool) {
+				if cv, ok := v.(*ssa.Convert); ok {
+					if sl, ok := cv.X.Type().Underlying().(*types.Slice); ok {
+						if b, ok := sl.Elem().Underlying().(*types.Basic); ok && b.Kind() == types.Uint8 {
+							if t, ok := cv.Type().Underlying().(*types.Basic); ok && t.Info()&types.IsString != 0 {
+								return cv.X, true
+							}
+						}
+					}
+				}
+				return nil, false
+			}
+			a, aok := bs(x.X)
+			b, bok := bs(x.Y)
+			var eq string
+			switch {
+			case aok && bok:
+				eq = "bytes.Equal(" + d(a) + ", " + d(b) + ")"
+			case aok:
+				eq = "bytes.Equal(" + d(a) + ", " + ys + ")"
+			case bok:
+				eq = "bytes.Equal(" + d(b) + ", " + xs + ")"
+			}
+			if eq != "" {
+				if x.Op == token.NEQ {
+					return "!" + eq
+				}
+				return eq
+			}
+		}
+		// arithmetic on two literals is the literal result (a bound chosen per case and adjusted later)
+		if isNumLit(xs) && isNumLit(ys) {
+			a, _ := strconv.ParseInt(xs, 10, 64)
+			b, _ := strconv.ParseInt(ys, 10, 64)
+			switch x.Op {
+			case token.ADD:
+				return strconv.FormatInt(a+b, 10)
+			case token.SUB:
+				return strconv.FormatInt(a-b, 10)
+			case token.MUL:
+				return strconv.FormatInt(a*b, 10)
+			}
+		}
+		return "(" + xs + " " + x.Op.String() + " " + ys + ")"
 	case *ssa.Call:
 		return describeCall(x.Common(), d)
 	case *ssa.Extract:
@@ -834,7 +887,11 @@ func describeCall(c *ssa.CallCommon, d func(ssa.Value) string) string {
 		}
 	}
 	var args []string
-	for _, a := range callArgs(c) {
+	ca := callArgs(c)
+	if !c.IsInvoke() {
+		ca = refArgs(c)
+	}
+	for _, a := range ca {
 		args = append(args, d(a))
 	}
 	name := calleeName(c)
@@ -1004,6 +1061,18 @@ func backward(v ssa.Value, visit func(ssa.Value) bool) bool {
 						}
 					}
 					return false
+				}
+				// a field of a local struct (variables gathered into a struct): every store to that field,
+				// also those made by helpers split out of the function that are handed the struct
+				if fa, ok := x.X.(*ssa.FieldAddr); ok {
+					if a, ok := fa.X.(*ssa.Alloc); ok && !a.Heap || ok && localOnly(a) {
+						for _, s := range fieldStoresOf(a, fa.Field, 0) {
+							if walk(s) {
+								return true
+							}
+						}
+						return false
+					}
 				}
 			}
 			return walk(x.X)
@@ -1594,4 +1663,118 @@ func liftToCommon(a, b ssa.Instruction) (ssa.Instruction, ssa.Instruction) {
 		}
 	}
 	return a, b
+}
+
+// localOnly: the allocation is used only through its fields and as an argument of helpers that are new with
+// respect to the reference tree (a local struct whose address goes to split-out helpers).
+func localOnly(a *ssa.Alloc) bool {
+	for _, ref := range *a.Referrers() {
+		switch x := ref.(type) {
+		case *ssa.FieldAddr, *ssa.DebugRef:
+		case *ssa.Store:
+			if x.Addr != ssa.Value(a) {
+				return false
+			}
+		case *ssa.UnOp:
+		case ssa.CallInstruction:
+			if !isNewHelper(staticCallee(x.Common())) {
+				return false
+			}
+		default:
+			return false
+		}
+	}
+	return true
+}
+
+// fieldStoresOf lists the values stored into field `field` of the struct root points to, in root's function and
+// in new helpers that receive root.
+func fieldStoresOf(root ssa.Value, field int, depth int) []ssa.Value {
+	var out []ssa.Value
+	refs := root.Referrers()
+	if refs == nil || depth > 3 {
+		return nil
+	}
+	for _, ref := range *refs {
+		switch x := ref.(type) {
+		case *ssa.FieldAddr:
+			if x.Field != field || x.X != root {
+				continue
+			}
+			for _, rr := range *x.Referrers() {
+				if st, ok := rr.(*ssa.Store); ok && st.Addr == ssa.Value(x) {
+					out = append(out, st.Val)
+				}
+			}
+		case ssa.CallInstruction:
+			g := staticCallee(x.Common())
+			if !isNewHelper(g) {
+				continue
+			}
+			for j, a := range x.Common().Args {
+				if a == root && j < len(g.Params) {
+					out = append(out, fieldStoresOf(g.Params[j], field, depth+1)...)
+				}
+			}
+		}
+	}
+	return out
+}
+
+// guardsUp: the conditions under which ins runs, including those of the call sites of the helpers it was moved
+// into (helpers new with respect to the reference tree that are called from one place).
+func guardsUp(ins ssa.Instruction) []string {
+	out := guardStrings(ins.Block())
+	for i := 0; i < 4; i++ {
+		s := soleCallSite(ins.Parent())
+		if s == nil {
+			break
+		}
+		out = append(out, guardStrings(s.Block())...)
+		ins = s
+	}
+	return out
+}
+
+// isGroupField: field i of t is a by-value field of a new struct type that only regroups reference fields.
+func isGroupField(t types.Type, i int) bool {
+	if len(curRenames.groupField) == 0 {
+		return false
+	}
+	if p, ok := t.Underlying().(*types.Pointer); ok {
+		t = p.Elem()
+	}
+	st, ok := t.Underlying().(*types.Struct)
+	return ok && i < st.NumFields() && curRenames.groupField[st.Field(i)]
+}
+
+// refArgs returns the arguments of a static call in the parameter order the callee has in the reference tree
+// (a function whose parameters were only reordered is read in its reference order; see paramPerm).
+func refArgs(c *ssa.CallCommon) []ssa.Value {
+	g := staticCallee(c)
+	if g == nil {
+		return c.Args
+	}
+	perm, ok := curRenames.paramPerm[g]
+	if !ok || len(perm) != len(c.Args) {
+		return c.Args
+	}
+	out := make([]ssa.Value, len(c.Args))
+	for i, a := range c.Args {
+		out[perm[i]] = a
+	}
+	return out
+}
+
+// refParams: the parameters of f in reference order.
+func refParams(f *ssa.Function) []*ssa.Parameter {
+	perm, ok := curRenames.paramPerm[f]
+	if !ok || len(perm) != len(f.Params) {
+		return f.Params
+	}
+	out := make([]*ssa.Parameter, len(f.Params))
+	for i, p := range f.Params {
+		out[perm[i]] = p
+	}
+	return out
 }
